@@ -274,3 +274,39 @@ fn c10_skip_take_chars_ascii_and_invalid_3() {
     kani::assume((b[0] < 0x80 || b[0] == 0xFF) && (b[1] < 0x80 || b[1] == 0xFF) && (b[2] < 0x80 || b[2] == 0xFF));
     chars_like_bytes(&b[..3]);
 }
+
+//@ tier: attempt
+//@ funcs: Val::index_opt (array and byte-string arms), <Val as ValT>::index, abs_index, Num::as_pos_usize
+//@ bounds: the array [false, true, null] and the byte string "abc" (concrete containers), index any machine integer; plus a float and a boolean index
+//@ asserts: `.[i]` reads exactly the element the position model names (negative from the end) and null outside; on byte strings the byte value as a number; a float or boolean index is an error, never a guess
+#[kani::proof]
+#[kani::unwind(8)]
+fn c10_index_opt_reads_model_position() {
+    let i: isize = kani::any();
+    let arr: Val = [Val::Bool(false), Val::Bool(true), Val::Null].into_iter().collect();
+    let r = arr.index_opt(&Val::Num(Num::Int(i)));
+    let m = m_abs(i as i128, 3);
+    match &r {
+        Ok(Some(v)) => {
+            assert!(0 <= m && m < 3);
+            match m {
+                0 => assert!(matches!(v, Val::Bool(false))),
+                1 => assert!(matches!(v, Val::Bool(true))),
+                _ => assert!(matches!(v, Val::Null)),
+            }
+        }
+        Ok(None) => assert!(m < 0 || m >= 3),
+        Err(_) => panic!("an integer index into an array is never an error"),
+    }
+    let bs = Val::byte_str(Bytes::from_static(b"abc"));
+    let rb = bs.index_opt(&Val::Num(Num::Int(i)));
+    match &rb {
+        Ok(Some(Val::Num(Num::Int(b)))) => assert!(0 <= m && m < 3 && *b == 97 + m as isize),
+        Ok(None) => assert!(m < 0 || m >= 3),
+        _ => panic!("a byte is read as a machine integer"),
+    }
+    kani::cover!(i == -3);
+    kani::cover!(i == 3);
+    kani::cover!(i == 1);
+    core::mem::forget((r, rb));
+}
